@@ -314,6 +314,51 @@ class Polygonal(Node):
         return {"parallelogram": "P", "triangle": "T", "polygon": "G"}[self.kind]
 
 
+class Polyhedron(Node):
+    """convex polyhedron given by vertices and triangular faces (any winding): half-space form"""
+
+    def __init__(self, s):
+        self.var = s["var"]
+        self.V = np.asarray(s["vertices"], dtype=np.float64)
+        self.F = np.asarray(s["faces"], dtype=int)
+        c = self.V.mean(0)
+        a, b, d = self.V[self.F[:, 0]], self.V[self.F[:, 1]], self.V[self.F[:, 2]]
+        n = np.cross(b - a, d - a)
+        self.area = 0.5 * np.linalg.norm(n, axis=1)
+        n = n / np.linalg.norm(n, axis=1, keepdims=True)
+        flip = ((a - c) * n).sum(1) < 0
+        n[flip] *= -1
+        self.n, self.off = n, (n * a).sum(1)
+        self.vol = float(np.abs(np.einsum("ij,ij->i", a - c, np.cross(b - c, d - c))).sum() / 6.0)
+
+    def space(self):
+        return [(self.var, 3)]
+
+    def free(self):
+        return set()
+
+    def phi(self, P, env):
+        return (P @ self.n.T - self.off).max(1)
+
+    def measure(self, env, N=1):
+        return np.full(N, self.vol)
+
+    def bmeasure(self, env, N=1):
+        return np.full(N, float(self.area.sum()))
+
+    def bbox(self, env, N=1):
+        out = np.zeros((N, 6))
+        out[:, 0::2] = self.V.min(0)
+        out[:, 1::2] = self.V.max(0)
+        return out
+
+    def bbox_exact(self):
+        return True
+
+    def desc(self):
+        return "H"
+
+
 class PointSet(Node):
     solid = False
 
@@ -571,7 +616,7 @@ class Boundary(Node):
     def member(self, P, env, tol, L):
         f = self.phi(P, env)
         ok = f <= tol
-        if self.side or isinstance(self.d, (Interval, Ball, Polygonal)):
+        if self.side or isinstance(self.d, (Interval, Ball, Polygonal, Polyhedron)):
             return ok, np.zeros(len(P), bool)
         # Boolean / product / moved expression: the zero set of the min/max level function contains
         # interior seams; a row is certainly on the true boundary when only one leaf is near.
@@ -610,7 +655,7 @@ class Boundary(Node):
 def _bmeasure(d, env, N):
     if isinstance(d, Interval):
         return 2 * np.ones(N)
-    if isinstance(d, (Ball, Polygonal)):
+    if isinstance(d, (Ball, Polygonal, Polyhedron)):
         return d.bmeasure(env, N)
     if isinstance(d, Moved):
         return _bmeasure(d.d, env, N)
@@ -679,6 +724,8 @@ def ref(s):
             return Ball(s, 2)
         if p == "sphere":
             return Ball(s, 3)
+        if p == "polyhedron":
+            return Polyhedron(s)
         return _PRIMS[p](s)
     op = s["op"]
     if op in ("union", "cut", "isect"):
@@ -802,6 +849,33 @@ def build(s):
         if p == "polygon":
             from torchphysics.problem.domains.domain2D.shapely_polygon import ShapelyPolygon
             return ShapelyPolygon(Space({s["var"]: 2}), vertices=[list(map(float, v)) for v in s["vertices"]])
+        if p == "polyhedron":
+            from torchphysics.problem.domains.domain3D.trimesh_polyhedron import TrimeshPolyhedron
+            if s.get("via_file"):
+                # written as an ASCII STL file (with the winding of the spec) and loaded through the file_name path
+                import tempfile
+                import os
+                from . import VERIF_ROOT
+                os.makedirs(os.path.join(VERIF_ROOT, ".tmp"), exist_ok=True)
+                fd, path = tempfile.mkstemp(suffix=".stl", dir=os.path.join(VERIF_ROOT, ".tmp"))
+                V, F = np.asarray(s["vertices"], float), np.asarray(s["faces"], int)
+                with os.fdopen(fd, "w") as f:
+                    f.write("solid tpmon\n")
+                    for tri in F:
+                        a, b, c = V[tri[0]], V[tri[1]], V[tri[2]]
+                        nn = np.cross(b - a, c - a)
+                        nn = nn / max(np.linalg.norm(nn), 1e-300)
+                        f.write(" facet normal %.9g %.9g %.9g\n  outer loop\n" % tuple(nn))
+                        for v in (a, b, c):
+                            f.write("   vertex %.9g %.9g %.9g\n" % tuple(v))
+                        f.write("  endloop\n endfacet\n")
+                    f.write("endsolid tpmon\n")
+                try:
+                    return TrimeshPolyhedron(Space({s["var"]: 3}), file_name=path, file_type="stl")
+                finally:
+                    os.remove(path)
+            return TrimeshPolyhedron(Space({s["var"]: 3}), vertices=[list(map(float, v)) for v in s["vertices"]],
+                                     faces=[list(map(int, f)) for f in s["faces"]])
         if p == "point":
             return D.Point(Space({s["var"]: s["dim"]}), val_torch(s["point"]))
         raise ValueError(p)
@@ -874,6 +948,8 @@ def self_validate():
         {"prim": "triangle", "var": "x", "origin": [0, 0], "c1": [0.4, 1.5], "c2": [2, 0.5]},
         {"prim": "polygon", "var": "x", "vertices": [[0, 0], [3, 0], [3, 2], [2, 2], [2, 1], [1, 1], [1, 2], [0, 2]]},
         {"prim": "sphere", "var": "x", "center": [0, 0, 1], "radius": 0.8},
+        {"prim": "polyhedron", "var": "x", "vertices": [[0, 0, 0], [2, 0, 0], [2, 1, 0], [0, 1, 0], [0, 0, 1.5], [2, 0, 1.5], [2, 1, 1.5], [0, 1, 1.5]],
+         "faces": [[0, 1, 2], [0, 2, 3], [4, 6, 5], [4, 7, 6], [0, 5, 1], [0, 4, 5], [1, 6, 2], [1, 5, 6], [2, 7, 3], [2, 6, 7], [3, 4, 0], [3, 7, 4]]},
         {"op": "rotate", "angle": 0.7, "around": [1.0, 0.5],
          "d": {"prim": "parallelogram", "var": "x", "origin": [0, 0], "c1": [2, 0], "c2": [0, 1]}},
     ]
